@@ -207,6 +207,8 @@ def run(ctx):
                 continue
             def close(a, c):
                 fa, fc = float(a), float(c)
+                if fa == fc or (fa != fa and fc != fc):      # equal, including two overflows of the same sign / two NaNs (rates of 1000 overflow the fingerprint's doubles)
+                    return True
                 return abs(fa - fc) <= 1e-9 * max(1.0, abs(fa))
             bad = [v for v in rb["fingerprint"] if v not in rt["fingerprint"] or not close(rb["fingerprint"][v], rt["fingerprint"][v])]
             badiv = [v for v in rb["ivs"] if v not in rt["ivs"] or not close(rb["ivs"][v], rt["ivs"][v])]
